@@ -11,7 +11,11 @@
 POLYSEED_PRIVATE polyseed_dependency polyseed_deps;
 
 static uint64_t stdlib_time() {
-    return (uint64_t)time(NULL);
+    time_t t = time(NULL);
+    /* A negative value is the (time_t)-1 error code or a clock set before 1970.
+       Report it as an invalid time so that the birthday falls back to the epoch
+       instead of a date derived from the wrapped-around unsigned value. */
+    return t < 0 ? (uint64_t)-1 : (uint64_t)t;
 }
 
 void polyseed_inject(const polyseed_dependency* deps) {
